@@ -366,6 +366,7 @@ def compare_case(c, r, model):
     exact = c.stream == "exact"
     pre = [(Fraction(x), Fraction(y)) for x, y in c.parts]
     _, keys = model_text(c, r)
+    all_exact = exact
     for k in keys:
         o, d = c.ops[k], r["ops"][k]
         mres = model.get("%s.%d" % (c.cid, k))
@@ -377,6 +378,8 @@ def compare_case(c, r, model):
                 dis.append(dict(what="non-finite", op=k, opkind=o["k"], particle=pi, impl=[str(ix), str(iy)]))
                 continue
             tol = _op_tol(c, o, d, pre[pi], pi, exact)
+            if tol is None or tol != 0:
+                all_exact = False
             if tol is None:
                 continue
             if abs(ix - mx) > tol or abs(iy - my) > tol:
@@ -401,8 +404,8 @@ def compare_case(c, r, model):
             break
         pre = d["pos"]
     # lookup of appendTracks on the final state (model evaluated on the model's final state of the
-    # last map; compared only in the exact regime where both states are identical)
-    if exact and keys and keys[-1] == len(c.ops) - 1:
+    # last map; compared only when every map of the case was compared bit for bit, so that both states are identical)
+    if all_exact and keys and keys[-1] == len(c.ops) - 1:
         mres = model.get("%s.%d" % (c.cid, keys[-1]))
         toks = r["idx"]
         for pi, (df, mx, my) in enumerate(mres["idx"]):
